@@ -59,8 +59,8 @@ TInit ==
 StepServe == /\ E.k = "Serve" /\ Serve(E.c)
              /\ Own(E.c, t[E.c]) = D(E.c).own
              /\ used'[E.c] = D(E.c).used
-             /\ HitP(DOMAIN cache, D(E.c).own) = D(E.c).hp
-             /\ (D(E.c).hp > 0 => HitKey(DOMAIN cache, D(E.c).own) = D(E.c).hkey)
+             /\ HitP(cache, D(E.c).own, Verify) = D(E.c).hp
+             /\ (D(E.c).hp > 0 => HitKey(cache, D(E.c).own, Verify) = D(E.c).hkey)
 StepEnter == /\ E.k = "Enter" /\ Enter(E.c)
              /\ (Secs(E.c, t[E.c])[i[E.c]].set => saved'[E.c] = E.x)
              /\ llm'.temperature = E.y
@@ -117,6 +117,7 @@ Verdict(k) ==
       bad      |-> UNION {{<<p[1], p[2], kd>> : kd \in Kinds(tr.convs[p[1]].turns[p[2]])} : p \in jd},
       idle_bad |-> {e \in 1..Len(tr.ev) : tr.ev[e].k = "Idle" /\ ~JIdle(tr.ev[e].x, Configured)},
       foreign  |-> {p \in pos : ~JServe(tr.convs[p[1]].turns[p[2]])},
+      judged   |-> jd,
       unjudged |-> Cardinality(pos \ jd)]
 
 TraceReport ==
